@@ -928,7 +928,7 @@ func c12RunChaos(p *c12Plan, schedSeed uint64, replay []simrt.Choice, lenient, k
 			pr.SendPackets([][]byte{peer.MakePacket(peer.BufProtack, peer.BufstatEOM, pk.H.Channel, 0, nil)})
 		}
 	}
-	chaosMsgs := 0
+	chaosMsgs, twinMsgs := 0, 0
 	pr.OnMsg = func(m *ClientMsg) {
 		if m.Type == peer.BufClose || m.Type == peer.BufSetup {
 			return
@@ -952,6 +952,15 @@ func c12RunChaos(p *c12Plan, schedSeed uint64, replay []simrt.Choice, lenient, k
 		var body []byte
 		body = append(body, peer.EED(4711, 1, 16, "ZZZZZ", 0, 0, "chaos", "srv", "", 1)...)
 		body = append(body, peer.EnvChange(peer.EnvMember{Type: 4, New: "512", Old: "512"})...)
+		if p.ChaosTwin {
+			// a result set and parameters with column names of their own: whatever the parsers of the process share
+			// is used by this connection's reader and the twin's at the same time
+			cols := []peer.Col{{Name: fmt.Sprintf("main_col_%d", chaosMsgs), Type: peer.TDS_INT4}}
+			body = append(body, peer.RowFmt(true, cols...)...)
+			body = append(body, peer.Row(cols, []peer.Val{{Raw: peer.RawInt4(int32(chaosMsgs))}})...)
+			body = append(body, peer.ParamFmt(true, cols...)...)
+			body = append(body, peer.Params(cols, []peer.Val{{Raw: peer.RawInt4(int32(chaosMsgs))}})...)
+		}
 		body = append(body, peer.Done(0x11, 0, 77)...)
 		body = append(body, peer.Done(0, 0, 0)...)
 		pr.SendPackets(peer.Packetise(body, peer.CutsBySize(len(body), p.BodySize), peer.BufResponse, m.Channel, true))
@@ -965,7 +974,13 @@ func c12RunChaos(p *c12Plan, schedSeed uint64, replay []simrt.Choice, lenient, k
 					sp.SendResponse(m.Channel, peer.Done(0, 0, 0), nil)
 					return
 				}
-				body := append(peer.Done(0x11, 0, 4242), peer.Done(0, 0, 0)...)
+				twinMsgs++
+				cols := []peer.Col{{Name: fmt.Sprintf("twin_col_%d", twinMsgs), Type: peer.TDS_INT4}}
+				body := peer.RowFmt(true, cols...)
+				body = append(body, peer.Row(cols, []peer.Val{{Raw: peer.RawInt4(int32(twinMsgs))}})...)
+				body = append(body, peer.ParamFmt(false, cols...)...)
+				body = append(body, peer.Params(cols, []peer.Val{{Raw: peer.RawInt4(int32(twinMsgs))}})...)
+				body = append(append(body, peer.Done(0x11, 0, 4242)...), peer.Done(0, 0, 0)...)
 				sp.SendResponse(m.Channel, body, []int{3, 11})
 			}
 			return sp
@@ -1011,7 +1026,7 @@ func c12RunChaos(p *c12Plan, schedSeed uint64, replay []simrt.Choice, lenient, k
 						twinErr = err.Error()
 						return
 					}
-					for n := 0; n < 5; n++ {
+					for n := 0; n < 8; n++ {
 						pkg, err := t0.NextPackage(ctx, true)
 						if err != nil {
 							twinErr = err.Error()
@@ -1090,8 +1105,8 @@ func c12RunChaos(p *c12Plan, schedSeed uint64, replay []simrt.Choice, lenient, k
 	if out.Budget {
 		return v, out
 	}
-	if p.ChaosTwin && (twinErr != "" || twinGot != 6) && len(out.Crashes) == 0 {
-		v.Violate("twin", "second connection disturbed", "a second connection exchanging three messages (two packages each) at the same time received %d packages %s", twinGot, twinErr)
+	if p.ChaosTwin && (twinErr != "" || twinGot != 18) && len(out.Crashes) == 0 {
+		v.Violate("twin", "second connection disturbed", "a second connection exchanging three messages (six packages each) at the same time received %d packages %s", twinGot, twinErr)
 	}
 	if chLErr != "" {
 		v.Violate("newchannel-failed", "NewChannel failed although the server acknowledged the setup", "the first logical channel of the connection: NewChannel: %s", chLErr)
